@@ -83,6 +83,44 @@ func (g *G) OverloadItem() Item {
 	body := func(i int) string {
 		return fmt.Sprintf("{\n\tfmt.Println(\"  cand\", %q)\n\treturn %d\n}", tag(tuples[i]), i)
 	}
+	// argument spellings per type: the typed variable, typed expressions, and literals where only
+	// parameters of that type accept them (an int literal would also be accepted by float64, so
+	// it is used only when no candidate of the same arity has float64 at that position). Each
+	// form is an (XGo, Go) pair.
+	argForms := [][][2]string{
+		{{"vi", "vi"}, {"vi + 1", "vi + 1"}, {"len(vl)", "len(vl)"}, {"int(vf)", "int(vf)"}},
+		{{"vs", "vs"}, {`"lit"`, `"lit"`}, {`vs + "!"`, `vs + "!"`}, {`"${vi}"`, `strconv.Itoa(vi)`}},
+		{{"vb", "vb"}, {"true", "true"}, {"vi > 2", "vi > 2"}, {"!vb", "!vb"}},
+		{{"vf", "vf"}, {"2.5", "2.5"}, {"vf * 2", "vf * 2"}, {"float64(vi)", "float64(vi)"}},
+		{{"vl", "vl"}, {"[]int{9}", "[]int{9}"}, {"vl[:1]", "vl[:1]"}, {"[7, 8]", "[]int{7, 8}"}},
+		{{"vp", "vp"}, {"&vr", "&vr"}, {`&rec{"q", 2}`, `&rec{"q", 2}`}},
+		{{"vr", "vr"}, {`rec{"q", 2}`, `rec{"q", 2}`}, {"*vp", "*vp"}},
+		{{"vfn", "vfn"}, {"func(x int) int { return x }", "func(x int) int { return x }"}, {"x => x * 2", "func(x int) int { return x * 2 }"}},
+	}
+	floatAt := func(pos, arity int) bool {
+		for _, t := range tuples {
+			if len(t) == arity && pos < len(t) && ovTypes[t[pos]].name == "float64" {
+				return true
+			}
+		}
+		return false
+	}
+	argsXG := func(t []int) (string, string) {
+		var xs, gs []string
+		for pos, ti := range t {
+			forms := argForms[ti]
+			k := 0
+			if g.Chance(45, "argform") {
+				k = g.Intn(len(forms), "form")
+			}
+			f := forms[k]
+			if ovTypes[ti].name == "int" && g.Chance(20, "intlit") && !floatAt(pos, len(t)) {
+				f = [2]string{"7", "7"}
+			}
+			xs, gs = append(xs, f[0]), append(gs, f[1])
+		}
+		return strings.Join(xs, ", "), strings.Join(gs, ", ")
+	}
 	args := func(t []int) string {
 		var n []string
 		for _, ti := range t {
@@ -152,9 +190,10 @@ func (g *G) OverloadItem() Item {
 		fmt.Fprintf(&gg, "recv := &%s{}\n", recvT)
 	}
 	for i := 0; i < k; i++ {
+		ax, ag := argsXG(tuples[i])
 		if isMethod {
-			fmt.Fprintf(&x, "fmt.Println(\"  ->\", recv.%s(%s))\n", id, args(tuples[i]))
-			fmt.Fprintf(&gg, "fmt.Println(\"  ->\", recv.%s_c%d(%s))\n", id, i, args(tuples[i]))
+			fmt.Fprintf(&x, "fmt.Println(\"  ->\", recv.%s(%s))\n", id, ax)
+			fmt.Fprintf(&gg, "fmt.Println(\"  ->\", recv.%s_c%d(%s))\n", id, i, ag)
 		} else if g.Chance(35, "cmdcall") && !strings.HasPrefix(args(tuples[i]), "vfn") {
 			// command-style call of the overloaded name (result discarded)
 			fmt.Fprintf(&x, "%s %s\n", id, args(tuples[i]))
@@ -164,8 +203,8 @@ func (g *G) OverloadItem() Item {
 			fmt.Fprintf(&x, "each [1], _x => {\n\tfmt.Println(\"  ->\", %s(%s))\n}\n", id, args(tuples[i]))
 			fmt.Fprintf(&gg, "each([]int{1}, func(_x int) {\n\tfmt.Println(\"  ->\", %s_c%d(%s))\n})\n", id, i, args(tuples[i]))
 		} else {
-			fmt.Fprintf(&x, "fmt.Println(\"  ->\", %s(%s))\n", id, args(tuples[i]))
-			fmt.Fprintf(&gg, "fmt.Println(\"  ->\", %s_c%d(%s))\n", id, i, args(tuples[i]))
+			fmt.Fprintf(&x, "fmt.Println(\"  ->\", %s(%s))\n", id, ax)
+			fmt.Fprintf(&gg, "fmt.Println(\"  ->\", %s_c%d(%s))\n", id, i, ag)
 		}
 	}
 	var tags []string
